@@ -20,6 +20,8 @@ let () = register "alloc" (fun c ->
      | Model.Inr a -> L [A "ok"; L (List.map zout (Model.allocate (zarg amt) a))])
   | _ -> failwith "bad alloc case")
 
+let () = register "hist" Histrun.run_hist
+
 let () =
   let cmd = Sys.argv.(1) in
   let h = try Hashtbl.find handlers cmd with Not_found -> (prerr_endline ("unknown command " ^ cmd); exit 2) in
